@@ -42,7 +42,7 @@ class C06Run(E2Run):
     default_monitors = ["c06"]
 
     def profile(self) -> Dict:
-        return {"topologies": ["lan", "routed", "routed2", "firewall", "wireless"], "max_hosts_per_subnet": 2, "tight_links": 0.0, "random_acl_rules": (0, 2), "permit_all_rule": 1.0, "users": 0.5, "initial_files": 0.6, "avoid": ["listen_on_ports", "redeclare_system_software", "tight_links"]}
+        return {"topologies": ["lan", "routed", "routed2", "firewall", "firewall2", "firewall2", "wireless"], "max_hosts_per_subnet": 2, "tight_links": 0.0, "random_acl_rules": (0, 2), "permit_all_rule": 1.0, "users": 0.5, "initial_files": 0.6, "avoid": ["listen_on_ports", "redeclare_system_software", "tight_links"]}
 
     # -- scenario: attacker and victim software ---------------------------------------------------------------------
     def tweak_scenario(self):
@@ -312,7 +312,7 @@ class C06Run(E2Run):
                 desc = f"{where['node']}/{where['list']}: {shape} {where.get('fields') or ''}"
             else:
                 raise GeneratorDefect(f"unknown block {kind}")
-        if kind == "power":
+        if kind == "power" and where.get("wait", True):
             self.call_wait_off(where["node"])
         self.blocked = {"kind": kind + (":" + where.get("shape", "") if kind == "acl" else ""), "where": where, "desc": desc, "partial": where.get("partial")}
         self.fault("block_" + self.blocked["kind"].replace(":", "_"))
@@ -417,7 +417,9 @@ class C06Run(E2Run):
             h = r.choice(wired)
             return k, {"a": h[0], "a_port": h[1], "b": h[2], "b_port": h[3]}
         if k == "power":
-            return k, {"node": r.choice([n for _, n in mids] + [self.b, self.b])}
+            # a node that has accepted its shutdown is being powered off: its interfaces are down from that moment on,
+            # so the attack may start at once (wait False) or after the node has reached OFF
+            return k, {"node": r.choice([n for _, n in mids] + [self.b, self.b]), "wait": r.random() < 0.5}
         i, n = r.choice(l3)
         dev = self.wnode("attack", n)
         lst = r.choice(self.acl_lists(dev, hops[i], hops[i + 1]))
